@@ -53,3 +53,24 @@ func Now(site string) time.Time {
 
 func Since(site string, t time.Time) time.Duration { return Now(site).Sub(t) }
 func Until(site string, t time.Time) time.Duration { return t.Sub(Now(site)) }
+
+// AfterFuncSend sends on ch (which must have buffer space) after ms virtual milliseconds.
+func AfterFuncSend(site string, ms int64, ch chan struct{}) {
+	e := E
+	if e == nil {
+		go func() { time.Sleep(time.Duration(ms) * time.Millisecond); ch <- struct{}{} }()
+		return
+	}
+	if e.poisoned {
+		panic(poison)
+	}
+	var tm *timer
+	tm = e.addTimer(time.Duration(ms)*time.Millisecond, func() {
+		select {
+		case ch <- struct{}{}:
+			s := e.chstateOf(reflect.ValueOf(ch))
+			s.queue = append(s.queue, tm.vc)
+		default:
+		}
+	})
+}
